@@ -112,6 +112,9 @@ POOL = {
            [('radinc', 0), ('radinc', 1), ('break', 0, 1, None)]),
 }
 # every rule any family can name (witnesses carry names only)
+# (labelled, unlabelled) isotopologue pairs and the rules run on them
+ISO_PAIRS = (('[13CH4]', 'C'), ('[13CH3]C', 'CC'), ('[2H]C', 'C'), ('C[18OH]', 'CO'))
+ISO_RULES = ('CH', 'CC')
 RULES = dict(W3.all_rules())
 RULES.update(W4.all_rules())
 RULES.update(W5.all_rules())
@@ -144,7 +147,11 @@ BOUND = {t: '55 seed sets (all 1- and 2-subsets of 10 molecules incl. a radical 
             'seed} x all non-empty rule sets of size <= %d from {C-H, O-H, X-H, C-X scission} '
             'x {SMARTS, RING text}; open: 12 aromatic seed spellings x all non-empty rule '
             'sets of size <= %d from %d rules (6 scissions spanning an aromatic ring bond, '
-            'aryl C-C, aryl C-O%s scission), SMARTS form'
+            'aryl C-C, aryl C-O%s scission), SMARTS form; iso (sixth wave): 4 isotopologue seed '
+            'pairs (13C-methane, 13C-ethane, D-methane, 18O-methanol with the unlabelled '
+            'molecule) in both seed orders x rule sets from {C-H, C-C scission} x {SMARTS, RING '
+            'text} x {strings, objects} x {text, Mol seeds}; 6 of the 8 ordered pairs are known '
+            'finding K3'
             % (KMAX[t], KMAX[t], KMAX[t], KMAX[t], len(W4.session_alphabet(t)),
                ', '.join(W4.SESSION_MOLS[t]), KMAX[t], KMAX[t], KMAX[t], KMAX[t],
                len(W5.OPEN_RULES[t]), ', aryl C-H' if 'ar:cH' in W5.OPEN_RULES[t] else '')
@@ -454,6 +461,12 @@ def shards(tier, seed):
             out.append(('hyper', sd, form))
     for sd in W5.OPEN_SEEDS:
         out.append(('open', sd, 'smarts'))
+    # (sixth wave, C17-m16) isotopologue seed pairs in both orders: species
+    # identity includes the isotope label, so the closure is the union of the
+    # labelled and the unlabelled network whichever seed is listed first
+    for form in ('smarts', 'ring'):
+        for pair in ISO_PAIRS:
+            out.append(('iso', pair, form))
     return out
 
 
@@ -496,6 +509,15 @@ def run_shard(shard, tier):
                     for how in ('strings', 'objects'):
                         for seed_as in W5.SEED_AS:
                             instance(R, sset, rs, form, how, seed_as=seed_as, fam=fam)
+        return R
+    if fam == 'iso':
+        for order in (tuple(ss), tuple(reversed(ss))):
+            for k in range(1, KMAX[tier] + 1):
+                for rs in itertools.combinations(ISO_RULES, k):
+                    for how in ('strings', 'objects'):
+                        for seed_as in W5.SEED_AS:
+                            instance(R, order, rs, form, how, seed_as=seed_as,
+                                     fam='iso:%s>%s' % order)
         return R
     if fam == 'session':
         for second in W4.session_alphabet(tier):
